@@ -1,16 +1,25 @@
-//! Spawns one child process per drop order, with a watchdog, `jobs` at a time.
+//! Runs the drop orders of a plan in child processes, with a watchdog, `jobs` children at a time.
+//!
+//! A child process executes a BATCH of orders one after the other (every order in an isolated domain
+//! of its own: prefix <tag><index>_ and root <dir>/<index>), printing `begin` / `done` markers
+//! around each.  If the child panics, aborts or hangs, that is DATA of the order that was in
+//! progress (`end` record with status panic / signal:N / exit:N / hang); the orders of the batch that
+//! had not been started are executed again in a fresh child.  So every order is observed in a
+//! process that ran to the point of that order without incident, and no incident is lost or blamed
+//! on another order.
 
-use std::io::Read;
+use std::collections::VecDeque;
+use std::io::{BufRead, BufReader};
 use std::process::{Command, Stdio};
-use std::sync::atomic::{AtomicUsize, Ordering};
+use std::sync::mpsc;
 use std::sync::{Arc, Mutex};
 use std::time::{Duration, Instant};
 
 use vlib::{Args, Value, json};
 
-const WATCHDOG: Duration = Duration::from_secs(40);
+const WATCHDOG: Duration = Duration::from_secs(60);
 
-fn order_arg(v: &Value) -> String {
+pub fn order_arg(v: &Value) -> String {
     v.as_array()
         .map(|a| {
             a.iter()
@@ -38,33 +47,95 @@ pub fn cleanup(root: &str, tag: &str) {
     }
 }
 
-fn run_one(exe: &std::path::Path, item: &Value, root: &str, tag: &str) -> (Vec<String>, String) {
+struct Outcome {
+    lines: Vec<String>,
+    status: String,
+}
+
+/// Executes the batch; returns the outcomes of the orders that were started and the indices that
+/// were not.
+fn run_batch(
+    exe: &std::path::Path,
+    plan: &[Value],
+    batch: &[usize],
+    root: &str,
+    tag: &str,
+    serial: usize,
+) -> (Vec<(usize, Outcome)>, Vec<usize>) {
+    let bf = format!("{root}/batch_{serial}.ndjson");
+    {
+        let mut tw = vlib::trace::TraceWriter::create(&bf);
+        for &i in batch {
+            cleanup(&format!("{root}/{i}"), &format!("{tag}{i}_"));
+            tw.emit(&json!({"i":i,"pat":plan[i]["pat"],"var":plan[i]["var"],"order":order_arg(&plan[i]["order"]),
+                            "root":format!("{root}/{i}"),"tag":format!("{tag}{i}_")}));
+        }
+        tw.flush();
+    }
     let mut child = Command::new(exe)
         .arg("child")
-        .args(["--pat", item["pat"].as_str().unwrap_or("")])
-        .args(["--var", item["var"].as_str().unwrap_or("")])
-        .args(["--order", &order_arg(&item["order"])])
-        .args(["--root", root])
-        .args(["--tag", tag])
+        .args(["--batch", &bf])
         .env("IOX2_LOG_LEVEL", "fatal")
         .stdin(Stdio::null())
         .stdout(Stdio::piped())
         .stderr(Stdio::null())
         .spawn()
         .expect("spawn child");
-    let mut out = child.stdout.take().unwrap();
-    // the child's output is small (< 64 KiB pipe buffer is not guaranteed): read it in a thread
+    let out = child.stdout.take().unwrap();
+    let (tx, rx) = mpsc::channel::<String>();
     let reader = std::thread::spawn(move || {
-        let mut s = String::new();
-        let _ = out.read_to_string(&mut s);
-        s
+        for l in BufReader::new(out).lines().map_while(Result::ok) {
+            if tx.send(l).is_err() {
+                break;
+            }
+        }
     });
-    let t0 = Instant::now();
-    let status = loop {
-        match child.try_wait() {
-            Ok(Some(st)) => {
+    let mut done: Vec<(usize, Outcome)> = vec![];
+    let mut current: Option<(usize, Vec<String>)> = None;
+    let mut last = Instant::now();
+    let mut hung = false;
+    loop {
+        match rx.recv_timeout(Duration::from_millis(200)) {
+            Ok(l) => {
+                last = Instant::now();
+                if !l.starts_with('{') {
+                    continue;
+                }
+                if let Ok(v) = serde_json::from_str::<Value>(&l) {
+                    if v["k"] == "begin" {
+                        current = Some((v["i"].as_u64().unwrap_or(0) as usize, vec![]));
+                        continue;
+                    }
+                    if v["k"] == "done" {
+                        if let Some((i, lines)) = current.take() {
+                            done.push((i, Outcome { lines, status: "ok".into() }));
+                        }
+                        continue;
+                    }
+                }
+                if let Some((_, lines)) = current.as_mut() {
+                    lines.push(l);
+                }
+            }
+            Err(mpsc::RecvTimeoutError::Timeout) => {
+                if last.elapsed() > WATCHDOG {
+                    hung = true;
+                    let _ = child.kill();
+                    break;
+                }
+            }
+            Err(mpsc::RecvTimeoutError::Disconnected) => break,
+        }
+    }
+    let st = child.wait();
+    let _ = reader.join();
+    let status = if hung {
+        "hang".to_string()
+    } else {
+        match st {
+            Ok(st) => {
                 use std::os::unix::process::ExitStatusExt;
-                break if st.success() {
+                if st.success() {
                     "ok".to_string()
                 } else if let Some(sig) = st.signal() {
                     format!("signal:{sig}")
@@ -72,26 +143,33 @@ fn run_one(exe: &std::path::Path, item: &Value, root: &str, tag: &str) -> (Vec<S
                     "panic".to_string()
                 } else {
                     format!("exit:{}", st.code().unwrap_or(-1))
-                };
-            }
-            Ok(None) => {
-                if t0.elapsed() > WATCHDOG {
-                    let _ = child.kill();
-                    let _ = child.wait();
-                    break "hang".to_string();
                 }
-                std::thread::sleep(Duration::from_millis(2));
             }
-            Err(e) => break format!("waiterror:{e}"),
+            Err(e) => format!("waiterror:{e}"),
         }
     };
-    let text = reader.join().unwrap_or_default();
-    let lines = text
-        .lines()
-        .filter(|l| l.starts_with('{'))
-        .map(|l| l.to_string())
-        .collect();
-    (lines, status)
+    if let Some((i, lines)) = current.take() {
+        // the order in progress when the child ended
+        done.push((i, Outcome { lines, status: if status == "ok" { "exit-without-done".into() } else { status.clone() } }));
+    } else if status != "ok" {
+        // the child did not end normally between two orders: blame the last one it executed
+        if let Some(l) = done.last_mut() {
+            l.1.status = status.clone();
+        }
+    }
+    let started: Vec<usize> = done.iter().map(|d| d.0).collect();
+    let not_started: Vec<usize> = batch.iter().copied().filter(|i| !started.contains(i)).collect();
+    for &i in batch {
+        cleanup(&format!("{root}/{i}"), &format!("{tag}{i}_"));
+    }
+    let _ = std::fs::remove_file(&bf);
+    if started.is_empty() && !not_started.is_empty() {
+        // the child could not even start its first order: report it against that order
+        let i = not_started[0];
+        done.push((i, Outcome { lines: vec![], status: if status == "ok" { "no-output".into() } else { status } }));
+        return (done, not_started[1..].to_vec());
+    }
+    (done, not_started)
 }
 
 pub fn main(args: &Args) {
@@ -100,35 +178,54 @@ pub fn main(args: &Args) {
     let tag = args.get_or("tag", "vdo_");
     let out = args.get("out").expect("--out");
     let jobs = args.num("jobs", 8) as usize;
+    let bsize = args.num("batch", 16).max(1) as usize;
     let exe = std::env::current_exe().expect("current_exe");
     let _ = std::fs::create_dir_all(&root);
 
-    let next = Arc::new(AtomicUsize::new(0));
-    let results: Arc<Mutex<Vec<Option<(Vec<String>, String)>>>> =
-        Arc::new(Mutex::new((0..plan.len()).map(|_| None).collect()));
+    let mut q = VecDeque::new();
+    let idx: Vec<usize> = (0..plan.len()).collect();
+    for c in idx.chunks(bsize) {
+        q.push_back(c.to_vec());
+    }
+    let queue = Arc::new(Mutex::new(q));
+    let serial = Arc::new(Mutex::new(0usize));
+    let results: Arc<Mutex<Vec<Option<Outcome>>>> = Arc::new(Mutex::new((0..plan.len()).map(|_| None).collect()));
     let plan = Arc::new(plan);
+    let children = Arc::new(Mutex::new(0u64));
     let mut handles = vec![];
     for _ in 0..jobs.max(1) {
-        let (next, results, plan, exe, root, tag) = (
-            next.clone(),
+        let (queue, results, plan, exe, root, tag, serial, children) = (
+            queue.clone(),
             results.clone(),
             plan.clone(),
             exe.clone(),
             root.clone(),
             tag.clone(),
+            serial.clone(),
+            children.clone(),
         );
         handles.push(std::thread::spawn(move || {
             loop {
-                let i = next.fetch_add(1, Ordering::SeqCst);
-                if i >= plan.len() {
-                    break;
+                let batch = match queue.lock().unwrap().pop_front() {
+                    Some(b) => b,
+                    None => break,
+                };
+                let s = {
+                    let mut g = serial.lock().unwrap();
+                    *g += 1;
+                    *g
+                };
+                *children.lock().unwrap() += 1;
+                let (done, rest) = run_batch(&exe, &plan, &batch, &root, &tag, s);
+                {
+                    let mut r = results.lock().unwrap();
+                    for (i, o) in done {
+                        r[i] = Some(o);
+                    }
                 }
-                let r = format!("{root}/{i}");
-                let t = format!("{tag}{i}_");
-                cleanup(&r, &t);
-                let res = run_one(&exe, &plan[i], &r, &t);
-                cleanup(&r, &t);
-                results.lock().unwrap()[i] = Some(res);
+                if !rest.is_empty() {
+                    queue.lock().unwrap().push_front(rest);
+                }
             }
         }));
     }
@@ -140,7 +237,10 @@ pub fn main(args: &Args) {
     let mut records = 0u64;
     let results = results.lock().unwrap();
     for (i, r) in results.iter().enumerate() {
-        let (lines, status) = r.clone().unwrap_or((vec![], "notrun".into()));
+        let (lines, status) = match r {
+            Some(o) => (o.lines.clone(), o.status.clone()),
+            None => (vec![], "notrun".to_string()),
+        };
         *statuses.entry(status.clone()).or_insert(0) += 1;
         let mut saw_reset = false;
         for l in &lines {
@@ -153,10 +253,13 @@ pub fn main(args: &Args) {
             }
         }
         if !saw_reset {
-            tw.emit(&json!({"k":"reset","pat":plan[i]["pat"],"var":plan[i]["var"],"run":i}));
+            tw.emit(&json!({"k":"reset","pat":plan[i]["pat"],"var":plan[i]["var"],"nodeids":[],"run":i}));
         }
         tw.emit(&json!({"k":"end","status":status,"run":i}));
     }
     tw.flush();
-    println!("{}", json!({"runs":plan.len(),"records":records,"status":statuses}));
+    println!(
+        "{}",
+        json!({"runs":plan.len(),"records":records,"status":statuses,"child_processes":*children.lock().unwrap()})
+    );
 }
